@@ -423,8 +423,14 @@ inline void initStripeState(
       stripeEnd = end;
     } else {
       Wide perStripe = totalRange / static_cast<Wide>(numWorkers);
-      Wide endWide = static_cast<Wide>(start) + static_cast<Wide>(i + 1) * perStripe;
-      stripeEnd = alignDownStripe(static_cast<IntegerT>(endWide), state.granularity);
+      // Stripe boundaries must be multiples of the granularity counted from `start` (start + k*g),
+      // not absolute multiples of g: with start % g != 0 the latter produce sub-granularity chunks in
+      // the interior of the range.
+      Wide offset = static_cast<Wide>(i + 1) * perStripe;
+      if (state.granularity > 1) {
+        offset -= offset % static_cast<Wide>(state.granularity);
+      }
+      stripeEnd = static_cast<IntegerT>(static_cast<Wide>(start) + offset);
       if (stripeEnd <= cursor) {
         stripeEnd = cursor;
       }
